@@ -86,8 +86,10 @@ def lane_init(ctx):
     z = np.linspace(0.1, 2.0, 4)
     prof = tuple(np.ones(4) for _ in range(5))
     L = np.linspace(0.1, 1.0, n)
-    for lv in (np.array([1, 3]), [1, 3]):
-        _orig["ivp"]((one, zero), prof, z, lv, L, L)
+    sprof = tuple(np.repeat(p, 2)[::2] for p in prof)
+    for pr in (prof, sprof):
+        for lv in (np.array([1, 3]), [1, 3]):
+            _orig["ivp"]((one, zero), pr, z, lv, L, L)
     ctx["sig_params"] = S.signature_params()
 
 
@@ -1248,7 +1250,10 @@ def simplify(rec):
         for key in s:
             if s[key] != base.get(key):
                 c = copy.deepcopy(rec)
-                c["specs"][i][key] = copy.deepcopy(base[key])
+                if key in base:
+                    c["specs"][i][key] = copy.deepcopy(base[key])
+                else:
+                    del c["specs"][i][key]
                 yield c
     if rec.get("reuse_arrays"):
         c = copy.deepcopy(rec)
